@@ -447,12 +447,66 @@ def addCategory (lg : List (Sym × Sym)) (r : Registry) (a : CatArgs) : Registry
           | .error e => (r, .error e)
           | .ok info => (⟨r.types, r.index, catSet r.cats info⟩, .ok info)
 
+/-- EXPLICIT `None` for `is_min_exclusive` / `is_max_exclusive` / `caption` (`minN`, `maxN`, `capN`): with
+`from_category` the value is copied from the source category (the last three `if … is None` lines of the
+`if from_category:` block); without it `None` stays, which is falsy like the defaults `False` / `""` that `a`
+carries then.  An unknown source category is left to `addCategory`, which raises for it. -/
+def inheritFlags (r : Registry) (a : CatArgs) (minN maxN capN : Bool) : CatArgs :=
+  if truthy a.fromCat then
+    match getCategoryInfo r (a.fromCat.getD 0) with
+    | .error _ => a
+    | .ok ci =>
+      { a with
+        minExcl := if minN then ci.minExcl else a.minExcl
+        maxExcl := if maxN then ci.maxExcl else a.maxExcl
+        caption := if capN then ci.caption else a.caption }
+  else a
+
+/-! ### read-only string queries -/
+
+/-- `str.lower()` on ASCII bytes -/
+def lowerBytes (l : List Nat) : List Nat := l.map (fun b => if isUpperB b then b + 32 else b)
+
+/-- `FindUnitCase(category, unit)`: the one unit of the category's quantity type that equals `unit` ignoring
+case (`AssertionError` when there is none or more than one) -/
+def findUnitCase (r : Registry) (c u : Sym) : Except ErrKind Sym :=
+  match getCategoryInfo r c with
+  | .error e => .error e
+  | .ok ci =>
+    match tlGet r.types ci.qtype with
+    | none => .error .units
+    | some l =>
+      match l.filter (fun w => lowerBytes (Sym.bytes w.sym) == lowerBytes (Sym.bytes u)) with
+      | [w] => .ok w.sym
+      | _ => .error .assertion
+
+/-- `re.split(r"[\./]", s)` -/
+def splitDotSlash : List Nat → List (List Nat)
+  | [] => [[]]
+  | b :: bs =>
+    if b = 46 ∨ b = 47 then [] :: splitDotSlash bs
+    else
+      match splitDotSlash bs with
+      | [] => [[b]]
+      | p :: ps => (b :: p) :: ps
+
+/-- same number of parts and, part by part, one is a prefix of the other -/
+def partsClose (a b : List (List Nat)) : Bool :=
+  a.length == b.length && (List.zip a b).all (fun p => p.2.isPrefixOf p.1 || p.1.isPrefixOf p.2)
+
+/-- `FindSimilarUnitMatches(unit)` in the iteration order of the symbol index (the code sorts the result) -/
+def findSimilar (r : Registry) (u : Sym) : List Sym :=
+  (r.index.map (·.1)).filter (fun k =>
+    partsClose (splitDotSlash (lowerBytes (Sym.bytes k))) (splitDotSlash (lowerBytes (Sym.bytes u))))
+
 /-! ### the state machine -/
 
 inductive RegOp
   | addUnitBase (qt : SArg) (name : Sym) (unit : SArg)
   | addUnit (qt : SArg) (name : Sym) (unit : SArg) (fb tb : Formula) (dc : Sym)
   | addCategory (a : CatArgs)
+  /-- `AddCategory` with explicit `None` for the exclusivity flags / the caption -/
+  | addCategoryN (a : CatArgs) (minN maxN capN : Bool)
 deriving DecidableEq, Repr
 
 inductive Out
@@ -471,6 +525,10 @@ def step (lg : List (Sym × Sym)) (r : Registry) : RegOp → Registry × Except 
     | (r1, .error e) => (r1, .error e)
   | .addCategory a =>
     match addCategory lg r a with
+    | (r1, .ok ci) => (r1, .ok (.cat ci))
+    | (r1, .error e) => (r1, .error e)
+  | .addCategoryN a minN maxN capN =>
+    match addCategory lg r (inheritFlags r a minN maxN capN) with
     | (r1, .ok ci) => (r1, .ok (.cat ci))
     | (r1, .error e) => (r1, .error e)
 
